@@ -106,8 +106,13 @@ func (fi *FuncInfo) ensureFacts() {
 		top[fn.Recover] = false
 	}
 	changed := true
+	rounds := 0
 	for changed {
 		changed = false
+		rounds++
+		if rounds > 2000 {
+			panic("facts dataflow does not converge in " + fn.String())
+		}
 		for _, b := range fn.Blocks {
 			if b == entry || b == fn.Recover {
 				continue
@@ -139,16 +144,35 @@ func (fi *FuncInfo) ensureFacts() {
 				continue // no processed predecessor yet
 			}
 			// short-circuit "a || b": a block with two predecessors, each
-			// arriving over a conditional edge, knows the disjunction.
+			// arriving over a conditional edge, knows the disjunction. The
+			// disjunction is generated at the block (it does not depend on
+			// the iteration state), which keeps the iteration descending.
 			if len(b.Preds) == 2 && b.Preds[0] != b.Preds[1] {
 				e0 := fi.edgeFacts[[2]int{b.Preds[0].Index, b.Index}]
 				e1 := fi.edgeFacts[[2]int{b.Preds[1].Index, b.Index}]
-				if len(e0) > 0 && len(e1) > 0 && !top[b.Preds[0]] && !top[b.Preds[1]] {
+				if len(e0) > 0 && len(e1) > 0 {
 					of := orFact(e0[0], e1[0])
 					acc[of.Key()] = of
 				}
 			}
-			if top[b] || len(acc) != len(fi.factsIn[b]) {
+			if !top[b] {
+				// descending iteration: never grow
+				for k := range acc {
+					if _, ok := fi.factsIn[b][k]; !ok {
+						delete(acc, k)
+					}
+				}
+			}
+			same := !top[b] && len(acc) == len(fi.factsIn[b])
+			if same {
+				for k := range acc {
+					if _, ok := fi.factsIn[b][k]; !ok {
+						same = false
+						break
+					}
+				}
+			}
+			if !same {
 				top[b] = false
 				fi.factsIn[b] = acc
 				changed = true
